@@ -290,6 +290,9 @@ def field_of_asg_target(fn, call):
     return None
 
 
+# generic robustness battery: renaming every local/parameter in these files must not change any verdict
+RENAME_LOCALS = ['src/pshm-posix.c']
+
 SELFTEST = [
     dict(id="map-private", file="src/pshm-posix.c", expect="C07.1",
          old="mmap (NULL, shm->size, flags, MAP_SHARED, fd, 0)", new="mmap (NULL, shm->size, flags, MAP_PRIVATE, fd, 0)"),
